@@ -133,11 +133,17 @@ CLAIMS = {
          "object has exactly own ++ inherited properties with origin marks and required flags, duplicate property names, inheritance from non-object / missing types, cycles "
          "(processType bookkeeping), and what Example()/OpenAPI show.",
          "5 C07", "weakest-precondition VCs over go/ssa + SMT; partial-correctness contract with unmodelled callees as havoc; re-throw obligation for deferred handlers"),
+ "C06": ("Partial, thin (the bookkeeping of the depth-first walk). The recursion checker's visit is proved to refuse a type exactly when it is already on the current chain and to "
+         "record it otherwise; leave to take exactly that type off; checkType, check and checkMixedValueNode to give back the set of types on the chain AND the chain itself "
+         "exactly as they found them on every return, error or not (so sibling properties and sibling alternatives of `@a | @b` are judged against the same chain; the original "
+         "tree left a refused name on the chain: fixed); a type already on the chain makes checkType fail. Not decided: which links count (optional / nullable / array are skipped, "
+         "`@a | @b` fails only if every alternative fails), that the walk follows every mandatory link with the right type table (the observed loss of the type table when descending "
+         "into a type, F17 in design-spikes, makes nested cycles go unreported and is not fixed: its repair breaks an existing test), no false alarms, termination of Example().",
+         "5 C06", "weakest-precondition VCs over go/ssa + SMT; partial-correctness contracts with the Node interface family as arbitrary callees"),
 }
 
 NOT_APPLICABLE = {
  "C03": "whole-pipeline language inclusion + round trip against an independent decoder: needs a verified reference grammar of the ~70-state schema scanner and the loader protocol; no per-function contract in reach states it (DESIGN.md I.6 and Part II section 6)",
- "C06": "the recursion checker and Example() termination are graph algorithms over the Node interface family with dynamic dispatch and a type table threaded through recursive calls; a contract needs an inductive reachability predicate over the heap-allocated node graph (ghost graph + measure), which the built verifier has no support for (no heap-recursive predicates); not brought under contract in the time available (DESIGN.md I.6)",
  "C08": "instance validity of the example against the generated OpenAPI schema needs an independent JSON Schema validator as oracle and a relation between two whole-pipeline outputs; no per-function contract states it (DESIGN.md I.6 and Part II section 6); the pooled-buffer half of the marshalers is claimed under C10",
  "C15": "Len() is computed by the ~70-state schema scanner and the enum scanner, which are not under contract (only the JSON document scanner is, and its Len clause is listed as not covered under C12); the boundary/idempotence/trailer clauses relate two runs on different texts (2-safety)",
  "C11": "quantifies over goroutine interleavings; the verifier is sequential (mutexes/Once are no-ops in its model), no permission logic for threads (DESIGN.md I.6 and Part II section 6)",
